@@ -68,6 +68,10 @@ def std_variants(tier: str, noop: bool) -> List[Dict[str, Any]]:
     v.append(cv)
     # dds and the callee modules imported by statements inside the function bodies
     v.append(_v("local", "local", ["split"], "local", 0.12))
+    # script placement: the whole pipeline in one file executed as __main__
+    sv = _v("local", "local", ["one"], "from", 0.2)
+    sv["script"] = True
+    v.append(sv)
     if tier == "thorough":
         for x in v:
             x["frac"] = 1.0
@@ -269,7 +273,7 @@ def run_family(prop: str, tier: str) -> int:
     proto_traces: List[Any] = []
     drift = 0
     for (vi, v) in enumerate(variants):
-        placement = "cells" if v.get("cells") else "package"
+        placement = "cells" if v.get("cells") else ("script" if v.get("script") else "package")
         key = (v["spec_store"], tuple(v["layouts"]), placement)
         if key not in gens:
             vplans = [pl for pl in plans if "restart" not in pl] if v.get("cells") else plans
@@ -284,6 +288,8 @@ def run_family(prop: str, tier: str) -> int:
             s2.real["import_form"] = v["imp"]
             if v.get("klass"):
                 s2.real["as_class"] = shp.class_candidates(s2)
+            if v.get("script"):
+                s2.real["main_script"] = True
             byname[s.name] = s2
         items = [(byname[h["shape"]], h["hist"]) for h in hs]
         if vi == 0:
@@ -305,6 +311,8 @@ def run_family(prop: str, tier: str) -> int:
             realisation += ",helpers-as-classes"
         if v.get("cells"):
             realisation += ",notebook-cells"
+        if v.get("script"):
+            realisation += ",__main__-script"
         if v.get("pristine"):
             realisation += ",pristine-hashseed=%s" % v["pristine"].get("hashseed")
         if v.get("accept"):
